@@ -201,12 +201,14 @@ func (w *hintFileWriter) close() error {
 	w.fd.Write(buf[:])
 	w.fd.Close()
 	tmp := w.path + ".tmp"
+	verifPoint("hint.tmp")
 	err := os.Rename(tmp, w.path)
 	if err != nil {
 		return err
 	} else {
 		logger.Infof("moved %s -> %s", tmp, w.path)
 	}
+	verifPoint("hint.renamed")
 
 	return nil
 }
